@@ -135,7 +135,9 @@ pub fn random_value(rng: &mut crate::rng::Rng, depth: usize) -> V {
         6 => V::Str(rng.pstr(&["nan", "NaN", "inf", "-inf", "Infinity", "infinity", "-Infinity", "+inf", "1_0", "0x10", "١", "1e400", "-1e400", "1e-400", "00", "-0.0", ".", "-", "+", "e1"]).to_string()),
         7 => {
             let n = rng.below(4);
-            let alphabet = ["a", "b", "A", "é", " ", "z", "0", "ß", "日"];
+            // (the last five: characters above and below the surrogate range, which UTF-16 order and
+            // code-point order sort differently)
+            let alphabet = ["a", "b", "A", "é", " ", "z", "0", "ß", "日", "ﬁ", "𝄞", "\u{ffff}", "\u{e000}", "😀"];
             V::Str((0..n).map(|_| rng.pstr(&alphabet)).collect())
         }
         _ => {
@@ -157,6 +159,60 @@ pub fn random_value(rng: &mut crate::rng::Rng, depth: usize) -> V {
             }
             V::Arr(Box::new(ArrV { seq, dict }))
         }
+    }
+}
+
+/// a value that differs from `v` as little as possible
+pub fn near_miss(rng: &mut crate::rng::Rng, v: &V) -> Option<V> {
+    match v {
+        V::Num(n) if n.is_finite() => Some(match rng.below(5) {
+            0 => V::Num(f64::from_bits(n.to_bits().wrapping_add(1))),
+            1 => V::Num(f64::from_bits(n.to_bits().wrapping_sub(1))),
+            2 => V::Num(n * (1.0 + f64::EPSILON)),
+            3 => V::Str(format!("{}", f64::from_bits(n.to_bits().wrapping_add(1)))),
+            _ => V::Str(format!("{}", n)),
+        }),
+        V::Num(_) => None,
+        V::Str(s) => Some(match rng.below(4) {
+            0 => V::Str(format!("{} ", s)),
+            1 => V::Str(s.to_uppercase()),
+            2 => match s.trim().parse::<f64>() {
+                Ok(x) if x.is_finite() => V::Num(f64::from_bits(x.to_bits().wrapping_add(1))),
+                _ => V::Str(format!("{}a", s)),
+            },
+            _ => V::arr(vec![V::Str(s.clone())]),
+        }),
+        V::Arr(a) => {
+            let mut b = (**a).clone();
+            match rng.below(4) {
+                0 => {
+                    // one more dictionary entry
+                    let k = Key::Str("extra".into());
+                    if b.dict.iter().any(|(k2, _)| *k2 == k) {
+                        return None;
+                    }
+                    b.dict.push((k, V::Num(1.0)));
+                }
+                1 => {
+                    if b.dict.is_empty() {
+                        return None;
+                    }
+                    b.dict.pop();
+                }
+                2 => b.seq.push(V::Mys),
+                _ => {
+                    if b.dict.is_empty() {
+                        return None;
+                    }
+                    let last = b.dict.len() - 1;
+                    b.dict[last].1 = V::Str("changed".into());
+                }
+            }
+            Some(V::Arr(Box::new(b)))
+        }
+        V::Bool(b) => Some(V::Str(if *b { "true".into() } else { "false".into() })),
+        V::Null => Some(V::Num(-0.0)),
+        V::Mys => Some(V::Null),
     }
 }
 
